@@ -2,6 +2,7 @@ package props
 
 import (
 	"fmt"
+	"runtime"
 
 	"github.com/go-kid/ioc/util/vsync"
 
@@ -15,7 +16,7 @@ func init() {
 	register(&Driver{
 		ID:        "SELF",
 		Technique: "self-test of the controlled scheduler, the channel model and the race-detector oracle on programs with known verdicts",
-		Rule:      "seven micro programs x all interleavings",
+		Rule:      "nine micro programs x all interleavings (the last one bounded)",
 		Parts:     []Part{{Name: "sched", Race: true, Workers: 1, Run: selfRun, QuickS: 120, ThoroughS: 120}},
 	})
 }
@@ -35,6 +36,7 @@ func selfRun(c *core.Ctx) {
 		wantDead   bool
 		wantOut    map[string]bool
 		mustSeeAll bool // every listed outcome must occur on some schedule
+		bound0     bool // explore without preemptions only (long-running program)
 	}
 	progs := []prog{
 		{name: "unbuffered-handoff", wantOut: map[string]bool{"x=1": true}, body: func() string {
@@ -116,6 +118,62 @@ func selfRun(c *core.Ctx) {
 			wg.Wait()
 			return "unreachable"
 		}},
+		// a collector ranging over an unbuffered channel that is closed after zero or one send, the
+		// closer not waiting for the collector before it reads what was collected
+		{name: "collector-closed-unbuffered", wantRace: true, wantOut: map[string]bool{"n=0": true, "n=1": true}, mustSeeAll: true, body: func() string {
+			ch := make(chan int)
+			n := 0
+			vsync.Go(func() {
+				for {
+					_, ok := vsync.ChanRecv2(ch)
+					if !ok {
+						return
+					}
+					n++ // races with the read below: the closer does not wait for the collector
+				}
+			})
+			var wg vsync.WaitGroup
+			wg.Add(2)
+			for i := 0; i < 2; i++ {
+				i := i
+				vsync.Go(func() {
+					defer wg.Done()
+					if i == 1 {
+						vsync.ChanSendFn(ch, func() { ch <- 1 })
+					}
+				})
+			}
+			wg.Wait()
+			vsync.ChanClose(ch)
+			return fmt.Sprintf("n=%d", n)
+		}},
+		// many short-lived channels, each closed and dropped before the next is made (the allocator
+		// reuses their addresses): a fresh channel must never be taken for a closed one
+		{name: "fresh-channels-after-closed-ones", bound0: true, wantOut: map[string]bool{"sum=40": true}, body: func() string {
+			sum := 0
+			for i := 0; i < 40; i++ {
+				ch := make(chan int)
+				var wg vsync.WaitGroup
+				wg.Add(1)
+				vsync.Go(func() {
+					defer wg.Done()
+					for {
+						v, ok := vsync.ChanRecv2(ch)
+						if !ok {
+							return
+						}
+						sum += v
+					}
+				})
+				vsync.ChanSendFn(ch, func() { ch <- 1 })
+				vsync.ChanClose(ch)
+				wg.Wait()
+				if i%8 == 7 {
+					runtime.GC()
+				}
+			}
+			return fmt.Sprintf("sum=%d", sum)
+		}},
 		{name: "semaphore-and-close", wantOut: map[string]bool{"x=3 drained=3": true}, body: func() string {
 			selfX = 0
 			sem := make(chan struct{}, 1)
@@ -163,7 +221,11 @@ func selfRun(c *core.Ctx) {
 		out := ""
 		races, deads := 0, 0
 		var first []int
-		st := scen.ExploreSched(3, 200000, c.Expired, func() { out = ""; out = p.body() }, func(e *scen.SchedExec) {
+		bound := 3
+		if p.bound0 {
+			bound = 0
+		}
+		st := scen.ExploreSched(bound, 200000, c.Expired, func() { out = ""; out = p.body() }, func(e *scen.SchedExec) {
 			c.S.Evaluations++
 			c.S.States++
 			if e.Raced {
